@@ -170,7 +170,16 @@ fn survey() -> bool {
 }
 
 fn survey_key(sig: &str) -> String {
-    sig.split('|').take(4).collect::<Vec<_>>().join("|")
+    let head = sig.split('|').take(4).collect::<Vec<_>>().join("|");
+    if sig.contains("|multi|") {
+        // causes are "family|file|detail" joined by ','
+        let causes = sig.splitn(5, '|').nth(4).unwrap_or("");
+        let mut ff: Vec<String> = causes.split(',').map(|c| c.split('|').take(2).collect::<Vec<_>>().join("/")).collect();
+        ff.sort();
+        ff.dedup();
+        return format!("{head} <- {}", ff.join(" + "));
+    }
+    head
 }
 
 fn loc_of(p: &str) -> String {
